@@ -144,6 +144,34 @@ def _absast(out):
     return n, skipped
 
 
+def _absdl(out):
+    """replay the model of the registry of pending downloads (Abs/Downloads.v) on the registry log (REG
+    lines) of every real trace"""
+    import os
+    from .. import core
+    n = steps = 0
+    if not os.path.exists(core.DRIVER):
+        return 0, 0
+    for r in out['results']:
+        if not r['ok']:
+            continue
+        try:
+            if '\nREG ' not in open(r['trace_path']).read():
+                continue
+        except OSError:
+            continue
+        rc, o = core.run([core.DRIVER, 'absdl', r['trace_path']], timeout=120)
+        n += 1
+        for l in o.split('\n'):
+            if l.startswith('DIFF'):
+                out['diffs'].append('%s [registry of pending downloads]: %s' % (r['name'], l[:400]))
+            if l.startswith('ABSDL'):
+                steps += int(l.split('steps=')[1].split()[0])
+        if rc not in (0, 1):
+            out['diffs'].append('%s: registry-model replay failed: %s' % (r['name'], o[-200:]))
+    return n, steps
+
+
 def _tier(ctx, quick, thorough):
     return quick if ctx['tier'] == 'quick' else thorough
 
@@ -242,6 +270,7 @@ def run_c03(ctx):
     jobs = pc.corpus_jobs(['S18_*.scn', 'S11_*.scn', 'R1_*.scn', 'R2_*.scn', 'S12_*.scn', 'S13_*.scn', 'S25_*.scn', 'S26*.scn', 'S30_*.scn']) + jobs + gk
     out = pc.run_scenarios('C03', ctx, jobs, [_with_meta(metas, _c03_oracle), oracles.c16_skins], nontrivial=pc.received_kinds)
     out['opstats']['entity_model_replays'] = _absent(out)
+    out['opstats']['registry_model_replays'], out['opstats']['registry_model_steps'] = _absdl(out)
     return pc.make_result('C03', ctx, out, 'frames of histories in which the last client joins at a random moment (idle or while the others keep writing), 8 switch combinations; non-trivial = distinct (scenario, receiver, kind, key) received',
                           assumptions=['download threads and sockets are outside the model: a finished download is an oracle event'])
 
@@ -349,7 +378,8 @@ def run_c06(ctx):
     jj, _ = _jobs_from(scen.join, 'C06j', ctx['seed'], max(6, n // 2))
     jb, _ = _jobs_from(scen.asset_burst, 'C06b', ctx['seed'], max(4, n // 4))
     jo, _ = _jobs_from(scen.asset_overwrite_back, 'C06o', ctx['seed'], max(4, n // 4))
-    jobs = pc.corpus_jobs(['S7_*.scn', 'S12_*.scn', 'S26*.scn']) + pc.generated_jobs('C06', ctx['seed'], n, ['assets']) + jj + jb + jo
+    jv, _ = _jobs_from(scen.asset_overtake, 'C06v', ctx['seed'], _tier(ctx, 3, 24))
+    jobs = pc.corpus_jobs(['S7_*.scn', 'S12_*.scn', 'S26*.scn', 'S31_*.scn']) + pc.generated_jobs('C06', ctx['seed'], n, ['assets']) + jj + jb + jo + jv
     metas = {name: _c06_meta(text) for name, text in jobs}
 
     def orc(tr, origin):
@@ -358,6 +388,9 @@ def run_c06(ctx):
     nrep, nskip = _absast(out)
     out['opstats']['asset_model_replays'] = nrep
     out['opstats']['asset_model_replays_outside_premises'] = nskip
+    nreg, nsteps = _absdl(out)
+    out['opstats']['registry_model_replays'] = nreg
+    out['opstats']['registry_model_steps'] = nsteps
     return pc.make_result('C06', ctx, out, 'frames of asset histories (materials inline, meshes/images/audio over the real HTTP endpoint), insertions and overwrites from arbitrary peers, per-peer switches; non-trivial = distinct (scenario, receiver, kind, asset) received',
                           assumptions=['download threads, sockets, ureq are outside the model: a finished download is an oracle event (partial)'])
 
